@@ -124,8 +124,36 @@ def quiet():
         yield
 
 
+class CallTimeout(Exception):
+    """the code under test did not come back: an observation (recorded like any other exception)"""
+
+
 @contextlib.contextmanager
-def mem_limit(gb: float = 6.0):
+def time_limit(seconds: int = 180):
+    """Bound the time one call of the code under test may take (SIGALRM, main thread only): a call
+    that loops or blocks forever becomes the observation "did not return" instead of a check that
+    never ends."""
+    import signal
+    import threading
+    if threading.current_thread() is not threading.main_thread():
+        yield
+        return
+
+    def on_alarm(*a):
+        raise CallTimeout(f"the call did not return within {seconds} s")
+    old = signal.signal(signal.SIGALRM, on_alarm)
+    prev = signal.alarm(seconds)
+    try:
+        yield
+    finally:
+        signal.alarm(0)
+        signal.signal(signal.SIGALRM, old)
+        if prev:
+            signal.alarm(prev)
+
+
+@contextlib.contextmanager
+def mem_limit(gb: float = 6.0, seconds: int = 180):
     """Lower the soft address-space limit while the real code runs, so that an allocation
     proportional to a label VALUE (not to the array size) surfaces as MemoryError in the code
     under test - an observation - instead of exhausting the machine.  Restored afterwards
@@ -134,6 +162,7 @@ def mem_limit(gb: float = 6.0):
     soft, hard = resource.getrlimit(resource.RLIMIT_AS)
     try:
         resource.setrlimit(resource.RLIMIT_AS, (int(gb * 2**30), hard))
-        yield
+        with time_limit(seconds):
+            yield
     finally:
         resource.setrlimit(resource.RLIMIT_AS, (soft, hard))
